@@ -37,6 +37,22 @@ pub struct GenConf {
     /// built with `Individual::new(solution, placeholder)` or pre-screened by another evaluator do
     #[serde(default)]
     pub placeholder: bool,
+    /// a component of the loop body opens a child scope and runs a nested configuration (a mutation) in it through the
+    /// public `Configuration::run`, as a user-defined sub-heuristic does; it draws from the run's generator
+    #[serde(default)]
+    pub nested: bool,
+}
+
+/// Runs a nested configuration in a child scope.
+#[derive(Clone, serde::Serialize)]
+pub struct NestedRun {
+    #[serde(skip)]
+    pub inner: std::sync::Arc<Configuration<RealP>>,
+}
+impl Component<RealP> for NestedRun {
+    fn execute(&self, problem: &RealP, state: &mut mahf::State<RealP>) -> mahf::ExecResult<()> {
+        state.with_inner_state(|st| self.inner.run(problem, st)).map(|_| ())
+    }
 }
 
 /// Gives every individual of the current population the placeholder objective value +inf.
@@ -52,8 +68,8 @@ impl Component<RealP> for Placeholder {
 }
 
 pub fn gen_conf_strategy(max_iters: u32) -> impl Strategy<Value = GenConf> {
-    (2u32..12, 1u32..14, 0u8..7, 0u8..4, 0u8..4, 0u8..4, 0u8..3, proptest::option::of(0usize..4), prop_oneof![Just(1.0), Just(0.5), 0.0f64..=1.0], 1u32..4, (0u32..=max_iters, prop_oneof![3 => Just(0u8), 4 => 1u8..5], prop_oneof![7 => Just(false), 1 => Just(true)], prop_oneof![3 => Just(false), 1 => Just(true)]))
-        .prop_map(|(pop, lambda, sel, xo, mutation, bound, repl, archive, pm, every, (iters, diversity, big, placeholder))| GenConf { pop, lambda, sel, xo, mutation, bound, repl, archive, pm, every, iters, diversity, big, placeholder })
+    (2u32..12, 1u32..14, 0u8..7, 0u8..4, 0u8..4, 0u8..4, 0u8..3, proptest::option::of(0usize..4), prop_oneof![Just(1.0), Just(0.5), 0.0f64..=1.0], 1u32..4, (0u32..=max_iters, prop_oneof![3 => Just(0u8), 4 => 1u8..5], prop_oneof![7 => Just(false), 1 => Just(true)], prop_oneof![3 => Just(false), 1 => Just(true)], prop_oneof![3 => Just(false), 1 => Just(true)]))
+        .prop_map(|(pop, lambda, sel, xo, mutation, bound, repl, archive, pm, every, (iters, diversity, big, placeholder, nested))| GenConf { pop, lambda, sel, xo, mutation, bound, repl, archive, pm, every, iters, diversity, big, placeholder, nested })
 }
 
 impl GenConf {
@@ -105,6 +121,11 @@ impl GenConf {
         let archive = g.archive;
         let pm = g.pm;
         let every = g.every;
+        let nested: Option<Box<dyn Component<RealP>>> = if g.nested {
+            Some(Box::new(NestedRun { inner: std::sync::Arc::new(Configuration::builder().do_(mutation::NormalMutation::new(0.2, 1.0)).build()) }))
+        } else {
+            None
+        };
         let ph = g.placeholder;
         let mark = move || -> Option<Box<dyn Component<RealP>>> { if ph { Some(Box::new(Placeholder)) } else { None } };
         Configuration::builder()
@@ -113,7 +134,7 @@ impl GenConf {
             .evaluate()
             .update_best_individual()
             .while_(LessThanN::iterations(g.iters), move |b| {
-                let mut b = b.do_(selection).do_(crossover).if_(RandomChance::new(pm), |b| b.do_(mutation)).do_(bound).do_if_some_(mark()).evaluate().update_best_individual();
+                let mut b = b.do_(selection).do_(crossover).if_(RandomChance::new(pm), |b| b.do_(mutation)).do_if_some_(nested).do_(bound).do_if_some_(mark()).evaluate().update_best_individual();
                 if let Some(k) = archive {
                     b = b.do_(archive::ElitistArchiveUpdate::new(k)).do_(archive::ElitistArchiveIntoPopulation::new());
                 }
